@@ -30,6 +30,37 @@ def fmt_num(v):
     return S.fn("STR$", [v], {})
 
 
+# Known differences of the runtime / the tool, each switchable: the C03 classifier re-runs a failing
+# case with one or two of them switched on; when that makes the case pass, the failure is exactly
+# that known finding and nothing else.
+LENIENT = set()
+SOURCE_DATA = []        # the source's DATA items in textual order (set by the classifier)
+UNDIMMED = set()        # names of the arrays the source never DIMensions (set by the classifier)
+
+
+def digits(v):
+    a = abs(v)
+    return str(int(a)) if a == int(a) and a < 1e9 else repr(float(a))
+
+
+def decb_print_num(v):
+    """Color BASIC PRINT of a number: sign or blank, digits, one trailing blank"""
+    if "negative-number-leading-blank" in LENIENT:
+        return ecb_str_text(v)
+    return ("-" if v < 0 else " ") + digits(v) + " "
+
+
+def ecb_str_text(v):
+    """the runtime's ecb_str: blank, BASIC09's STR$ without a trailing point, blank"""
+    return " " + ("-" if v < 0 else "") + digits(v) + " "
+
+
+def norm_print(items):
+    """a PRINT event: values as ("v", text), separators as `;` / `,`; an empty string prints
+    nothing, so it is dropped (the tool writes "" in front of a leading or doubled separator)"""
+    return tuple(x for x in items if x != ("v", ""))
+
+
 # ----------------------------------------------------------------------------- Color BASIC
 
 def split_colon(s):
@@ -65,20 +96,47 @@ def find_kw(s, word, start=0):
     return -1
 
 
+NUM_RE = re.compile(r"[+-]?(\d+\.?\d*|\.\d+)(E[+-]?\d+)?$")
+
+
+class DecbEnv(dict):
+    """variable store of the strict Color BASIC machine (C03): arrays have bounds — those of their
+    DIM, or 10 per dimension from the first use — every element starts as 0 / the empty string"""
+
+    def __init__(self, *a):
+        super().__init__(*a)
+        self.dims = {}
+
+    def arr_check(self, name, idx):
+        if name not in self.dims:
+            self.dims[name] = (10,) * len(idx)
+        b = self.dims[name]
+        if len(b) != len(idx) or any(i < 0 or i > n for i, n in zip(idx, b)):
+            raise S.EvalError("BS")
+
+    def arr_get(self, name, idx):
+        self.arr_check(name, idx)
+        return self.get(("arr", name) + idx, "" if name.endswith("$") else 0.0)
+
+
 class DecbMachine:
-    def __init__(self, text, env, script, budget=4000):
+    def __init__(self, text, env, script, budget=4000, strict=False, inputs=()):
+        self.strict = strict
+        self.inputs = list(inputs)
         self.lines = []
         for raw in re.split(r"[\r\n]+", text):
             m = re.match(r"\s*(\d+)\s*(.*)$", raw)
             if m:
                 self.lines.append((int(m.group(1)), m.group(2)))
-        self.env = dict(env)
-        self.script = script
+        self.env = DecbEnv(env) if strict else dict(env)
+        self.script = dict(script, __str_blank__="str-trailing-blank" in LENIENT,
+                           __neg_blank__="negative-number-leading-blank" in LENIENT) if strict else script
         self.trace = []
         self.budget = budget
         self.for_stack = []
         self.gosub_stack = []
         self.data = []
+        self.quoted = []
         for _, body in self.lines:
             self._collect_data(body)
         self.dptr = 0
@@ -99,7 +157,9 @@ class DecbMachine:
                 items.append("".join(cur))
                 for it in items:
                     t = it.strip()
-                    self.data.append(t[1:-1] if len(t) >= 2 and t.startswith('"') and t.endswith('"') else t)
+                    quoted = len(t) >= 2 and t.startswith('"') and t.endswith('"')
+                    self.data.append(t[1:-1] if quoted else t)
+                    self.quoted.append(quoted)
 
     def ev(self, e):
         return S.decb_eval(S.decb_parse(e), self.env, self.script)
@@ -252,7 +312,7 @@ class DecbMachine:
             body = st[5:] if st.startswith("PRINT") else st[1:]
             if body.lstrip().startswith("@"):
                 return self.event_stmt(st)
-            self.trace.append(("print",) + tuple(self.print_items(body)))
+            self.trace.append(("print",) + norm_print(self.print_items(body)))
             return None
         if st.startswith("DATA"):
             return None
@@ -266,11 +326,51 @@ class DecbMachine:
                 if self.dptr >= len(self.data):
                     raise S.EvalError("OD")
                 item = self.data[self.dptr]
+                was_quoted = self.quoted[self.dptr]
                 self.dptr += 1
-                self.assign(tgt.strip(), item if tgt.strip().split("(")[0].endswith("$") else
+                isstr = tgt.strip().split("(")[0].strip().endswith("$")
+                if self.strict and not isstr and item.strip():
+                    t = item.replace(" ", "")
+                    if re.fullmatch(r"&H[0-9A-F]+", t):
+                        self.assign(tgt.strip(), float(int(t[2:], 16)))
+                        continue
+                    if not NUM_RE.match(t) or was_quoted:
+                        raise S.EvalError("SN")        # a string datum for a numeric target
+                if self.strict and isstr and not was_quoted and "numeric-datum-read-as-string" in LENIENT \
+                        and NUM_RE.match(item.replace(" ", "")) and any(d == "" and not q for d, q in zip(self.data, self.quoted)):
+                    item = repr(float(item.replace(" ", "")))     # known: typed by its look, then made a string
+                self.assign(tgt.strip(), item if isstr else
                             (S.fn("VAL", [item], {}) if item.strip() else 0.0))
             return None
+        if st.startswith("DIM") and self.strict:
+            for d in self.split_args(st[3:]):
+                m = re.match(r"\s*([A-Z][A-Z0-9]*\$?)\s*\((.*)\)\s*$", d)
+                if m:
+                    name = S.var_key(m.group(1))
+                    if name in self.env.dims:
+                        raise S.EvalError("DD")
+                    self.env.dims[name] = tuple(S.to_i16(self.ev(b)) for b in self.split_args(m.group(2)))
+            return None
         if st.startswith("DIM") or st.startswith("CLEAR"):
+            return None
+        m = re.match(r"(LINE\s*)?INPUT\s*(.*)$", st)
+        if m:
+            body = m.group(2).strip()
+            prompt = ""
+            pm = re.match(r'"([^"]*)"\s*;(.*)$', body)
+            if pm:
+                prompt, body = pm.group(1), pm.group(2)
+            if not m.group(1):
+                prompt += "? "
+            targets = [t.strip() for t in self.split_args(body)]
+            self.trace.append(("input", prompt, len(targets)))
+            for tgt in targets:
+                if not self.inputs:
+                    self.trace.append(("end-of-input",))
+                    raise Stop()
+                item = self.inputs.pop(0)
+                isstr = tgt.split("(")[0].strip().endswith("$")
+                self.assign(tgt, item if isstr else S.fn("VAL", [item], {}))
             return None
         m = re.match(r"(?:LET\s*)?([A-Z][A-Z0-9]*\$?(?:\(.*?\))?)\s*=(.*)$", st)
         if m and not st.startswith(("IF", "ON", "FOR")):
@@ -304,6 +404,8 @@ class DecbMachine:
         m = re.match(r"([A-Z][A-Z0-9]*\$?)\((.*)\)$", target)
         if m:
             idx = tuple(S.to_i16(self.ev(a)) for a in self.split_args(m.group(2)))
+            if self.strict:
+                self.env.arr_check(S.var_key(m.group(1)), idx)
             self.env[("arr", S.var_key(m.group(1))) + idx] = value
         else:
             self.env[S.var_key(target)] = value
@@ -313,11 +415,12 @@ class DecbMachine:
         items, i, s = [], 0, body
         toks = S.dtokens(s)
         # split the token list into expressions at ; , and at juxtaposition boundaries
-        cur, depth, prev_operand = [], 0, False
+        cur, depth, prev_operand, prev_id = [], 0, False, False
         def flush():
             if cur:
                 src = " ".join(t for _, t in cur)
-                items.append(fmt_num(S.decb_eval(S.DecbParser(list(cur)).expr(1), self.env, self.script)))
+                v = S.decb_eval(S.DecbParser(list(cur)).expr(1), self.env, self.script)
+                items.append(("v", decb_print_num(v) if self.strict and not isinstance(v, str) else fmt_num(v)))
                 cur.clear()
         for k, t in toks:
             if depth == 0 and k == "op" and t in (";", ","):
@@ -326,14 +429,16 @@ class DecbMachine:
                 prev_operand = False
                 continue
             is_operand_start = k in ("num", "hex", "str", "id") or (k == "kw" and t not in ("AND", "OR", "NOT")) or (k, t) == ("op", "(")
-            if depth == 0 and prev_operand and is_operand_start:
+            if depth == 0 and prev_operand and is_operand_start and not (prev_id and (k, t) == ("op", "(")):
                 flush()
+                items.append(";")                    # juxtaposed items print like `;`
             cur.append((k, t))
             if (k, t) == ("op", "("):
                 depth += 1
             elif (k, t) == ("op", ")"):
                 depth -= 1
             prev_operand = depth == 0 and (k in ("num", "hex", "str", "id") or (k, t) == ("op", ")") or (k == "kw" and t == "INKEY$"))
+            prev_id = k == "id"
         flush()
         return items
 
@@ -344,8 +449,63 @@ WRAPPERS = {"ecb_int": "INT", "ecb_val": "VAL", "ecb_str": "STR$", "ecb_hex": "H
             "ecb_string": "STRING$", "inkey": "INKEY$", "ecb_button": "BUTTON", "ecb_joystk": "JOYSTK", "ecb_point": "POINT"}
 
 
+def b09_num_text(v):
+    """how BASIC09's PRINT writes a REAL: no leading blank, a trailing point on whole numbers"""
+    if v == int(v) and abs(v) < 1e9:
+        return f"{int(v)}."
+    t = repr(float(v))
+    return t[1:] if t.startswith("0.") else ("-" + t[2:] if t.startswith("-0.") else t)
+
+
+class B09Env(dict):
+    """variable store of the strict BASIC09 machine (C03): arrays exist only when DIMensioned, with
+    indices base..base+n-1; with `strict_init` a read of something never assigned is an error
+    (BASIC09 does not clear data memory), otherwise it reads as 0 / the empty string"""
+
+    def __init__(self, *a):
+        super().__init__(*a)
+        self.dims = {}
+        self.base = 1
+        self.strict_init = False
+        self.strsize = {}
+        self.assumed_filled = set()
+
+    def unset(self, n):
+        if self.strict_init and not n.startswith("tmp_") and "." not in n:
+            raise S.EvalError(f"reads {n} before any assignment")
+        return "" if n.endswith("$") else 0.0
+
+    def arr_check(self, name, idx):
+        if name not in self.dims:
+            raise S.EvalError(f"arr_{name} is used without a DIM")
+        b = self.dims[name]
+        if len(b) != len(idx):
+            if "implicit-array-multi-dim" in LENIENT and b == (11,) and name in UNDIMMED:
+                b = self.dims[name] = (11,) * len(idx)
+                self.assumed_filled.add(name)     # the one-dimensional fill loop stands for the intended one
+            else:
+                raise S.EvalError(f"arr_{name} has {len(b)} dimensions, used with {len(idx)}")
+        if any(i < self.base or i > self.base + n - 1 for i, n in zip(idx, b)):
+            raise S.EvalError("BS")
+
+    def arr_get(self, name, idx):
+        if name == "ST$" and len(idx) == 2 and "string-func-numeric-code" in LENIENT:
+            return chr(idx[1] % 256) * idx[0]      # known: STRING$(n, code) is read as the array ST$
+        self.arr_check(name, idx)
+        key = ("arr", name) + idx
+        if key not in self:
+            if self.strict_init and name not in self.assumed_filled:
+                raise S.EvalError(f"reads arr_{name}{idx} before any assignment")
+            return "" if name.endswith("$") else 0.0
+        return self[key]
+
+
 class B09Machine:
-    def __init__(self, lines, env, script, budget=4000):
+    def __init__(self, lines, env, script, budget=4000, strict=False, strict_init=False, inputs=()):
+        self.strict = strict
+        if strict:
+            budget = 400000        # the fill loops of a three-dimensional array are thousands of steps
+        self.inputs = list(inputs)
         self.stmts = []          # (label or None, parsed node)
         self.labels = {}
         for line in lines:
@@ -363,11 +523,17 @@ class B09Machine:
                 self.stmts.append(node)
             if lab is not None and first:
                 self.labels[lab] = len(self.stmts)
-        self.env = dict(env)
+        self.env = B09Env(env) if strict else dict(env)
+        if strict:
+            self.env.strict_init = strict_init
         self.script = script
         self.trace = []
         self.budget = budget
         self.match_blocks()
+        if strict:      # BASE is declarative: it holds for the whole procedure wherever it stands
+            for n in self.stmts:
+                if n[0] == "decl" and n[1] == "BASE":
+                    self.env.base = int(float(n[2][1][1]))
         self.data = [self.const(v) for n in self.stmts if n[0] == "data" for v in n[1]]
         self.dptr = 0
 
@@ -505,34 +671,95 @@ class B09Machine:
                 elif k == "run":
                     self.do_run(n[1], n[2])
                 elif k == "print":
-                    self.trace.append(("print",) + tuple(x if x in (";", ",") else fmt_num(self.ev(x)) for x in n[1]))
+                    self.trace.append(("print",) + norm_print(x if x in (";", ",") else ("v", self.print_text(self.ev(x), x)) for x in n[1]))
                 elif k == "read":
                     for tgt in n[2]:
                         if self.dptr >= len(self.data):
                             raise S.EvalError("OD")
-                        self.store(tgt, self.data[self.dptr])
+                        v = self.data[self.dptr]
+                        if self.strict and not isinstance(v, str) and self.is_str_target(tgt) \
+                                and "numeric-datum-read-as-string" in LENIENT:
+                            v = SOURCE_DATA[self.dptr] if self.dptr < len(SOURCE_DATA) else digits(v)
+                        if self.strict and isinstance(v, str) != self.is_str_target(tgt):
+                            raise S.EvalError("BASIC09: READ of a " + ("string" if isinstance(v, str) else "number")
+                                              + " into a " + ("string" if self.is_str_target(tgt) else "numeric") + " variable")
+                        self.store(tgt, v, by_read=True)
                         self.dptr += 1
                 elif k == "input":
-                    self.trace.append(("input", self.const(n[1]) if n[1] else ""))
+                    self.trace.append(("input", self.const(n[1]) if n[1] else "", len(n[2])))
+                    for tgt in n[2]:
+                        if not self.inputs:
+                            self.trace.append(("end-of-input",))
+                            return self.trace
+                        item = self.inputs.pop(0)
+                        self.store(tgt, item if self.is_str_target(tgt) else S.fn("VAL", [item], {}), by_read=True)
+                elif k == "decl" and self.strict:
+                    self.declare(n[1], n[2])
                 pc += 1
             self.trace.append(("end",))
         except S.EvalError as e:
             self.trace.append(("error", str(e)))
         return self.trace
 
+    def print_text(self, v, node=None):
+        if self.strict and not isinstance(v, (str, bool)):
+            if "print-raw-number" in LENIENT and node is not None and node[0] in ("bin", "un"):
+                return ecb_str_text(v)        # known: an operator expression is not sent through ecb_str
+            return b09_num_text(v)
+        return fmt_num(v)
+
+    def is_str_target(self, tgt):
+        return tgt[1].endswith("$")
+
+    def declare(self, kw, toks):
+        if kw == "BASE":
+            self.env.base = int(float(toks[1][1]))
+            return
+        if kw != "DIM":
+            return
+        # DIM a, b(3, 4), c$ : STRING[80]  (`;` separates groups with their own type)
+        body = toks[1:]
+        size = None
+        for i, tk in enumerate(body):
+            if tk[0] == "id" and tk[1].upper() == "STRING" and i + 2 < len(body) and body[i + 1] == ("op", "["):
+                size = int(float(body[i + 2][1]))
+        colon = next((i for i, tk in enumerate(body) if tk == ("op", ":")), len(body))
+        for item in T.split_args(body[:colon]):
+            if not item or item[0][0] != "id":
+                continue
+            name = item[0][1]
+            if name.endswith("$"):
+                self.env.strsize[name] = size or 32
+            if len(item) > 1 and item[1] == ("op", "("):
+                dims = tuple(int(float(self.const(BP.parse_expr(a)))) for a in T.split_args(item[2:-1]))
+                key = name[4:] if name.startswith("arr_") else name
+                if key in self.env.dims:
+                    raise S.EvalError(f"{name} is declared twice")
+                self.env.dims[key] = dims
+
     def goto(self, n):
         if n not in self.labels:
             raise S.EvalError(f"UL {n}")
         return self.labels[n]
 
-    def store(self, lhs, v):
+    def store(self, lhs, v, by_read=False):
+        if self.strict and isinstance(v, str):
+            v = v[:self.env.strsize.get(lhs[1], 32)]
         if lhs[0] == "id":
             self.env[lhs[1]] = v
         else:
             idx = tuple(S.to_i16(self.ev(a)) for a in lhs[2])
-            self.env[("arr", lhs[1][4:] if lhs[1].startswith("arr_") else lhs[1]) + idx] = v
+            name = lhs[1][4:] if lhs[1].startswith("arr_") else lhs[1]
+            if self.strict:
+                if by_read and name not in self.env.dims and "array-only-read-or-input-target" in LENIENT:
+                    self.env.dims[name] = (11,) * len(idx)     # known: READ / INPUT targets are never visited
+                self.env.arr_check(name, idx)
+            self.env[("arr", name) + idx] = v
 
     def do_run(self, name, args):
+        if name == "ecb_str" and self.strict:
+            self.store(args[-1], ecb_str_text(S.num(self.ev(args[0]))))
+            return
         if name in WRAPPERS:
             vals = [self.ev(a) for a in args[:-1]]
             self.store(args[-1], S.fn(WRAPPERS[name], vals, self.script))
